@@ -8,7 +8,7 @@ from harness import core, py2lean, instantiate
 from harness.core import Outcome, f2b, b2f
 
 ID = "C06"
-LEAN_TARGETS = ["BeyondVerif.Props.C06", "BeyondVerif.Props.C06Iter", "BeyondVerif.Props.C06Conv", "BeyondVerif.Props.C06Adapt", "BeyondVerif.Props.C06Gen"]
+LEAN_TARGETS = ["BeyondVerif.Props.C06", "BeyondVerif.Props.C06Iter", "BeyondVerif.Props.C06Conv", "BeyondVerif.Props.C06Adapt", "BeyondVerif.Props.C06Gen", "BeyondVerif.Props.C06Est"]
 THEOREMS = [
     "BeyondVerif.C06.trees_orders_gammas",
     "BeyondVerif.C06.euler_order1",
@@ -107,6 +107,9 @@ THEOREMS = [
     "BeyondVerif.C06.step_scale_contracts",
     "BeyondVerif.C06.adaptive_terminates",
     "BeyondVerif.C06.adaptive_terminates_of_order",
+    # the estimate is the difference of the two embedded solutions (Props/C06Est.lean)
+    "BeyondVerif.C06.lincomb_sub",
+    "BeyondVerif.C06.errEst_eq_solution_difference",
 ]
 LEVEL_TEXT = ("Lean theorems over R about the four Butcher tableaux, the per-body attraction, the step-size update and MAX_ITER translated from "
               "keplernum.py on every run: all rooted-tree order conditions (Euler 1; RK4 all 8 up to order 4; RKF54 and DOPRI54 all 17 up to order 5 for "
@@ -216,8 +219,8 @@ OPEN = ["the derivation of the local error C h^5 of RK4 (and C h^6 of the order-
         "(Butcher series); with it rk4_global_error_partial becomes unconditional",
         "the two-body convergence constants use the unweighted sup norm (L = max(1, 2mu/r_min^3)); a weighted norm max(|r|, |v|/omega) would give "
         "L = omega = sqrt(2 mu / r_min^3) ~ 1.5e-3 /s in LEO; that the numerical states stay in |r| >= r_min is a hypothesis",
-        "errEst = |(y_b - y_bstar)[:3]| (the estimate IS the difference of the two embedded solutions) and an O(h^2) bound of it for Lipschitz fields, which "
-        "would discharge the hypothesis of adaptive_terminates, are not proved (the termination theorem takes the smallness of the estimate as hypothesis)",
+        "errEst = |(y_b - y_bstar)[:3]| (the estimate IS the difference of the two embedded solutions) is proved (errEst_eq_solution_difference, any tableau and dimension); "
+        "an O(h^2) bound of it for Lipschitz fields, which would discharge the hypothesis of adaptive_terminates, is not (the termination theorem takes the smallness of the estimate as hypothesis)",
         "quadrature exactness and the linear test equation are stated per tableau with explicit polynomial coefficients, not as one theorem "
         "'bushy/tall-tree conditions => exactness' for an arbitrary tableau",
         "KNIter does not model Ephem.iter / the yielded dates (C08's model does); runReqs models the binding of lazily started iterators by identity only; "
